@@ -272,9 +272,23 @@ theorem glvlife_close_escrow_home (s s' : St) (who : Who) (slot : Nat) (h : clos
       (s'.users act.owner).mt act.m = (s.users act.owner).mt act.m + act.escMt ∧
       s'.vaultLong = s.vaultLong ∧ s'.vaultShort = s.vaultShort ∧ s'.glvVault0 = s.glvVault0 ∧ s'.glvVault1 = s.glvVault1 ∧
       s'.glvRec0 = s.glvRec0 ∧ s'.glvRec1 = s.glvRec1 ∧ s'.glvMinted = s.glvMinted ∧ s'.glvBurned = s.glvBurned := by
-  obtain ⟨act, h1, _, h3, rfl⟩ := close_some h
+  obtain ⟨act, h1, _, h3, _, rfl⟩ := close_some h
   refine ⟨act, h1, h3, acts_setAct_same _ _ _, ?_, ?_, ?_, ?_, rfl, rfl, rfl, rfl, rfl, rfl, rfl, rfl⟩ <;>
     simp [setAct, setUser, User.mt, User.addMt] <;> (by_cases hm : act.m = 0 <;> simp [hm])
+
+/-- THE GLOBAL LEDGER, for every history (`totalLong`/`totalShort`/`heldGlv` are folds over the finite user and slot
+lists; `step_preserves_total`, then induction): the long and the short tokens held by all users, all escrows and the
+market vault always add up to what the users started with — nothing is created or lost — and the GLV supply
+`minted − burned` is exactly what users and escrows hold. -/
+theorem glvlife_ledger_every_history (l sh : Nat) (now : Int) (ops : List Op) :
+    totalLong (run (init l sh now) ops).1 = l + l ∧ totalShort (run (init l sh now) ops).1 = sh + sh ∧
+    (run (init l sh now) ops).1.glvBurned + heldGlv (run (init l sh now) ops).1 = (run (init l sh now) ops).1.glvMinted := by
+  have := run_preserves_total ops (init l sh now) (ledger_init l sh now)
+  exact ⟨this.long, this.short, this.glv⟩
+
+/-- … one transaction at a time -/
+theorem glvlife_step_preserves_total (L S : Nat) (s : St) (op : Op) (h : Ledger L S s) : Ledger L S (step s op).1 :=
+  step_preserves_total s op h
 
 /-! GLV shifts (`create_glv_shift → execute_glv_shift → close_glv_shift`) -/
 
@@ -329,6 +343,8 @@ example : (exec (run (init 10000 5000 1700000000) (glHist.take 3)).1 .keeper 0 0
 
 example : ((run (init 10000 5000 1700000000) (glHist.take 5 ++ [.screate .keeper 0 0 1 200 0, .sexec .keeper 0 0 true false 190])).1.glvVault0,
     (run (init 10000 5000 1700000000) (glHist.take 5 ++ [.screate .keeper 0 0 1 200 0, .sexec .keeper 0 0 true false 190])).1.glvRec1) = (260, 190) := by decide
+
+example : totalLong (run (init 10000 5000 1700000000) glHist).1 = 20000 ∧ heldGlv (run (init 10000 5000 1700000000) glHist).1 = 250 := by decide
 
 end GlvLife
 
